@@ -383,6 +383,12 @@ void exec_step(const J &st, int incb) {
        (int)qid, g_depth);
   } else if (op == "gai") {
     Tok *tok = new_tok(st, "gai");
+    int litcode = 0;  // address literal given as the node name: its marker code, else 0
+    {
+      unsigned char ab[16];
+      if (inet_pton(AF_INET, name.c_str(), ab) == 1) litcode = addr_marker(AF_INET, ab);
+      else if (inet_pton(AF_INET6, name.c_str(), ab) == 1) litcode = addr_marker(AF_INET6, ab);
+    }
     struct ares_addrinfo_hints hints;
     memset(&hints, 0, sizeof hints);
     int fam = (int)st["family"].num(0);
@@ -392,8 +398,8 @@ void exec_step(const J &st, int incb) {
     std::string service = st["service"].str("");
     int dots = 0;
     for (char c : name) if (c == '.') dots++;
-    ev("{\"e\":\"call\",\"api\":\"gai\",\"t\":%d,\"dots\":%d,\"enddot\":%d,\"wname\":%s,\"name\":%s,\"family\":%d,\"flags\":%d,\"service\":%s,\"now\":%lld,\"depth\":%d,\"incb\":%d}",
-       tok->id, dots, (!name.empty() && name.back() == '.') ? 1 : 0, jstr((!name.empty() && name.back() == '.') ? name.substr(0, name.size() - 1) : name).c_str(), jstr(name).c_str(), fam, hints.ai_flags, jstr(service).c_str(), g_now_ms, g_depth, incb);
+    ev("{\"e\":\"call\",\"api\":\"gai\",\"t\":%d,\"lit\":%d,\"dots\":%d,\"enddot\":%d,\"wname\":%s,\"name\":%s,\"family\":%d,\"flags\":%d,\"service\":%s,\"port\":%d,\"now\":%lld,\"depth\":%d,\"incb\":%d}",
+       tok->id, litcode, dots, (!name.empty() && name.back() == '.') ? 1 : 0, jstr((!name.empty() && name.back() == '.') ? name.substr(0, name.size() - 1) : name).c_str(), jstr(name).c_str(), fam, hints.ai_flags, jstr(service).c_str(), atoi(service.c_str()), g_now_ms, g_depth, incb);
     g_depth++;
     ares_getaddrinfo(g_channel, name.c_str(), service.empty() ? nullptr : service.c_str(), &hints, addrinfo_cb, tok);
     g_depth--;
@@ -660,6 +666,15 @@ void run_history(const J &hist) {
   }
   opts.resolvconf_path = (char *)resolv.c_str(); optmask |= ARES_OPT_RESOLVCONF;
   std::string hosts = g_cfg["hosts"].str("/dev/null");
+  if (g_cfg["hostsfile"].num()) {  // fixed hosts database (mirrored by HostsDb in Lookup.tla)
+    const char *td = getenv("VERIF_TMP");
+    hosts = std::string(td ? td : "/tmp") + "/sim_hosts." + std::to_string((long)getpid());
+    FILE *hf = fopen(hosts.c_str(), "w");
+    if (hf) {
+      fputs("10.1.2.3 h1.test\n10.1.2.4 h1.test\nfd00::7 h1.test\n10.1.2.5 h2.test alias2.test\n", hf);
+      fclose(hf);
+    }
+  }
   opts.hosts_path = (char *)hosts.c_str(); optmask |= ARES_OPT_HOSTS_FILE;
   if (g_cfg.has("retrychance") || g_cfg.has("retrydelay")) {
     opts.server_failover_opts.retry_chance = (unsigned short)g_cfg["retrychance"].num(10);
@@ -669,6 +684,7 @@ void run_history(const J &hist) {
   opts.sock_state_cb = sock_state_cb; optmask |= ARES_OPT_SOCK_STATE_CB;
   int rc = ares_init_options(&g_channel, &opts, optmask);
   if (viafile) unlink(resolv.c_str());
+  std::string hosts_tmp = g_cfg["hostsfile"].num() ? hosts : "";
   if (rc != ARES_SUCCESS) {
     ev("{\"e\":\"initfail\",\"rc\":\"%s\"}", stname(rc));
     g_channel = nullptr;
@@ -686,11 +702,12 @@ void run_history(const J &hist) {
   for (auto &d : domstore) domj += (domj.empty() ? "" : ",") + jstr(d);
   ev("{\"e\":\"init\",\"nsrv\":%d,\"tries\":%d,\"timeout\":%d,\"maxtimeout\":%lld,\"rotate\":%lld,\"udpmax\":%lld,\"usevc\":%lld,\"igntc\":%lld,"
      "\"nocheckresp\":%lld,\"edns\":%lld,\"dns0x20\":%lld,\"stayopen\":%lld,\"nosearch\":%lld,\"noaliases\":%lld,\"qcache\":%lld,\"ndots\":%d,"
-     "\"domains\":[%s],\"lookups\":%s,\"retrychance\":%lld,\"retrydelay\":%lld,\"pendwrite\":%lld,\"tfo\":%lld,\"hintmax\":%lld}",
+     "\"domains\":[%s],\"lookups\":%s,\"retrychance\":%lld,\"retrydelay\":%lld,\"pendwrite\":%lld,\"tfo\":%lld,\"hintmax\":%lld,\"hostsfile\":%lld,\"usefile\":%d}",
      g_nservers, opts.tries, opts.timeout, g_cfg["maxtimeout"].num(0), g_cfg["rotate"].num(0), g_cfg["udpmax"].num(0), g_cfg["usevc"].num(0),
      g_cfg["igntc"].num(0), g_cfg["nocheckresp"].num(0), g_cfg["edns"].num(0), g_cfg["dns0x20"].num(0), g_cfg["stayopen"].num(0),
      g_cfg["nosearch"].num(0), g_cfg["noaliases"].num(1), g_cfg["qcache"].num(0), opts.ndots, domj.c_str(), jstr(lookups).c_str(),
-     g_cfg["retrychance"].num(10), g_cfg["retrydelay"].num(5000), g_cfg["pendwrite"].num(0), g_cfg["tfo"].num(0), g_cfg["hintmax"].num(0));
+     g_cfg["retrychance"].num(10), g_cfg["retrydelay"].num(5000), g_cfg["pendwrite"].num(0), g_cfg["tfo"].num(0), g_cfg["hintmax"].num(0), g_cfg["hostsfile"].num(0),
+     lookups.find('f') != std::string::npos ? 1 : 0);
 
   for (auto &st : hist["steps"].a) exec_step(st, 0);
   if (g_channel != nullptr) {
@@ -701,6 +718,7 @@ void run_history(const J &hist) {
     exec_step(d, 0);
   }
   ares_library_cleanup();
+  if (!hosts_tmp.empty()) unlink(hosts_tmp.c_str());
   ares_verif_now_cb  = nullptr;
   ares_verif_rand_cb = nullptr;
   std::string pend;
